@@ -71,6 +71,9 @@ class DG(GEN.G):
     def p_filter(self, k, d, env):
         return self.p_for(k, d, env) if self.src.bool(0.5) else self.p_listlit(k, d, env)
 
+    def p_item_key(self, k, d, env):
+        return self.p_filter(k, d, env)
+
     def p_closure(self, k, d, env):
         return self.p_arith(k, d, env)
 
